@@ -57,7 +57,7 @@ func toValue(r interface{}, out reflect.Type, isVariadic bool) (reflect.Value, e
 	}
 
 	if r == nil && (out.Kind() == reflect.Interface || out.Kind() == reflect.Ptr || out.Kind() == reflect.Slice ||
-		out.Kind() == reflect.Map || out.Kind() == reflect.Array || out.Kind() == reflect.Chan) {
+		out.Kind() == reflect.Map || out.Kind() == reflect.Array || out.Kind() == reflect.Chan || out.Kind() == reflect.Func) {
 		v = reflect.Zero(reflect.SliceOf(out).Elem())
 	} else if v.Type().Kind() == reflect.Ptr &&
 		v.Type() == reflect.TypeOf(&iface.IContext{}) {
@@ -75,7 +75,8 @@ func toValue(r interface{}, out reflect.Type, isVariadic bool) (reflect.Value, e
 // cast 将reflect.Value类型强制转换为执行type类型的reflect.Value
 func cast(v reflect.Value, typ reflect.Type) reflect.Value {
 	originV := (*hack.Value)(unsafe.Pointer(&v))
-	newV := reflect.NewAt(typ, originV.Ptr).Elem()
+	// 只需要目标类型的类型信息; 不能通过 NewAt(..).Elem() 获取, 否则 nil 指针会得到无类型的零值
+	newV := reflect.Zero(typ)
 	newVHack := (*hack.Value)(unsafe.Pointer(&newV))
 	v = *(*reflect.Value)(unsafe.Pointer(&hack.Value{
 		Typ:  newVHack.Typ,
